@@ -12,7 +12,7 @@ func init() {
 	register(&Rule{ID: "R-kind-bijective", Floor: 100, Run: ruleKindBijective,
 		Doc: "for every interface of the pipeline that has a Kind() method (AST nodes, types, runtime values, interrupts): each implementer's Kind() returns exactly one constant of the kind enum and no two implementers return the same one, so that a Kind() test identifies the dynamic type; every dispatch `switch x.Kind() { case K: x.(T) }` relies on it (a shared or non-constant kind makes the assertion under the case panic)"})
 	register(&Rule{ID: "R-kind-assert", Floor: 180, Run: ruleKindAssert,
-		Doc: "every panicking (single-result) type assertion x.(T) on an interface with a Kind() method, where x is an AST node, a type, or an interrupt, is dominated by a Kind() test on the same expression (enclosing case, enclosing if, or preceding early exit, with no write to x in between) whose constants are returned by T.Kind() and by no other implementer; otherwise an input whose node has another kind panics the host. For runtime values an existing local Kind() guard must agree with T; assertions on values without a local guard are licensed by static typing only and are counted, not decided"})
+		Doc: "every panicking (single-result) type assertion x.(T), anywhere in the module, on an interface that has a kind discriminator (a zero-argument method returning an enum constant that tells the implementers apart: Kind() of AST nodes, types, interrupts, and of package-internal tag interfaces such as the analyzer's functionType or the compiler's annotations) is dominated by a test of that discriminator on the same expression (enclosing case, enclosing if, or preceding early exit, with no write to x in between, also through helpers and call sites) whose constants are returned by T and by no other implementer; otherwise an input whose value has another kind panics the host. For a package-internal tag interface an assertion without such a test is decided by where the value can come from: every object / container element / field the expression can be read from is followed back (flow-insensitively, through locals, parameters and call sites, constructor functions, struct literals and field stores, append and element stores) to the concrete types stored there - only T: discharged; another implementer too: violated; not traceable: undecided. For runtime values an existing local Kind() guard must agree with T; assertions on values without a local guard are licensed by static typing only and are counted, not decided"})
 }
 
 // ---- R-kind-bijective ----
@@ -25,7 +25,7 @@ func ruleKindBijective(c *Ctx) []Obligation {
 	}
 	for _, ki := range m.ifaces {
 		for _, im := range ki.Impls {
-			key := fmt.Sprintf("%s|%s.Kind()", ki.Name, im.name())
+			key := fmt.Sprintf("%s|%s.%s()", ki.Name, im.name(), ki.Method)
 			pos := "?"
 			if im.Decl != nil {
 				pos = c.Pos(im.Decl.Pos())
@@ -102,8 +102,9 @@ const (
 
 // tblIsTagIface: Kind-interfaces that are neither syntax (declared in one of
 // the two ast packages) nor part of a value library: analyzer.functionType,
-// compiler.CompiledAnnotation, …  Their assertions are licensed by invariants
-// of analyzer-internal containers, not by the input.
+// compiler.CompiledAnnotation, …  An assertion on them without a dominating
+// kind test is licensed by an invariant of the container the value is read
+// from; the invariant is checked by the origin analysis (rules_tables_origin.go).
 func (m *tblModel) tblIsTagIface(ki *tblKindIface) bool {
 	p := ki.Named.Obj().Pkg().Path()
 	return !strings.HasSuffix(p, "/ast") && !strings.HasSuffix(p, "/value")
@@ -135,8 +136,9 @@ func ruleKindAssert(c *Ctx) []Obligation {
 	var nValueLicensed, nValueGuarded, nCommaOk, nToIface int
 	perPkgLicensed := map[string]int{}
 	var pkgs []string
-	for _, rel := range tblPipeline {
-		pkgs = append(pkgs, rel)
+	// every package of the module (the pipeline and its drivers)
+	for _, p := range c.All {
+		pkgs = append(pkgs, relPkg(p.PkgPath))
 	}
 	sort.Strings(pkgs)
 	for _, rel := range pkgs {
@@ -196,7 +198,7 @@ func ruleKindAssert(c *Ctx) []Obligation {
 				xp := g.pathOf(ta.X)
 				var fact *tblFact
 				if xp != nil {
-					fact = reach.factsAt(f, ta).get(xp.extend(".Kind()", false))
+					fact = reach.factsAt(f, ta).get(xp.extend("."+ki.Method+"()", false))
 				}
 				if fact == nil && xp == nil {
 					// x is a call: the callee may always return T
@@ -212,8 +214,7 @@ func ruleKindAssert(c *Ctx) []Obligation {
 				}
 				if fact == nil {
 					if cls == tblClsTag {
-						obs = append(obs, Obligation{Key: tblUniq(seenKey, base), Pos: c.Pos(ta.Pos()), Status: Info,
-							Detail: fmt.Sprintf("unguarded assertion on the package-internal tag interface %s (licensed by an invariant of the container it is read from, not decided)", ki.Name)})
+						obs = append(obs, m.tblDecideByOrigin(c, f, ta, ki, im, tblUniq(seenKey, base)))
 						continue
 					}
 					if cls == tblClsValue {
@@ -295,6 +296,42 @@ func ruleKindAssert(c *Ctx) []Obligation {
 		Detail: fmt.Sprintf("runtime-value assertions: %d locally guarded by a Kind() test (decided above), %d licensed by static typing only (not decided; %s); %d comma-ok assertions and %d interface-to-interface assertions skipped",
 			nValueGuarded, nValueLicensed, strings.Join(lic, " "), nCommaOk, nToIface)})
 	return obs
+}
+
+// tblDecideByOrigin: an assertion x.(T) without a dominating kind test is safe
+// only if nothing but a T can be stored where x is read from (see
+// rules_tables_origin.go).
+func (m *tblModel) tblDecideByOrigin(c *Ctx, f *tblFn, ta *ast.TypeAssertExpr, ki *tblKindIface, im *tblImpl, key string) Obligation {
+	pos := c.Pos(ta.Pos())
+	if len(ki.Impls) == 1 && ki.Impls[0] == im {
+		return Obligation{Key: key, Pos: pos, Status: Discharged, Nontrivial: true,
+			Detail: fmt.Sprintf("no %s() test dominates the assertion, but %s is the only implementation of %s", ki.Method, im.name(), ki.Name)}
+	}
+	ts := m.origin().exprTypes(f, ta.X)
+	head := fmt.Sprintf("no %s() test on %s dominates the assertion", ki.Method, exprStr(ta.X))
+	if ts.unknown != "" {
+		return Obligation{Key: key, Pos: pos, Status: Undecided,
+			Detail: fmt.Sprintf("%s, and where its value comes from cannot be followed: %s", head, ts.unknown)}
+	}
+	var others []string
+	for tn := range ts.types {
+		if tn != im.T.Obj() {
+			others = append(others, tn.Name())
+		}
+	}
+	sort.Strings(others)
+	switch {
+	case len(ts.types) == 0:
+		return Obligation{Key: key, Pos: pos, Status: Undecided, Detail: head + ", and no producer of its value was found"}
+	case len(others) == 0:
+		return Obligation{Key: key, Pos: pos, Status: Discharged, Nontrivial: true,
+			Detail: fmt.Sprintf("%s; every value that can be stored where it is read from is a %s: %s", head, im.name(), tblTypeSetString(ts))}
+	case len(ts.fieldBased) > 0:
+		return Obligation{Key: key, Pos: pos, Status: Undecided,
+			Detail: fmt.Sprintf("%s; the objects it is read from could not be told apart (field %s taken over all objects), which admits %s: %s", head, strings.Join(ts.fieldBased, ","), strings.Join(others, ","), tblTypeSetString(ts))}
+	}
+	return Obligation{Key: key, Pos: pos, Status: Violated, Nontrivial: true,
+		Detail: fmt.Sprintf("%s, and a value of another implementation of %s can be stored where it is read from (%s): the assertion to %s panics for it. Producers: %s", head, ki.Name, strings.Join(others, ","), im.name(), tblTypeSetString(ts))}
 }
 
 func tblKindNames(im *tblImpl) string {
